@@ -28,3 +28,16 @@ CLAIMED['C04'] = ('model_checking',
     'Trusted: TLC, Context.tla, the projection in harness/drivers/c04.py; document traces are projected on two marker names and '
     'two characters. NF-NUM and NF-MACRO(e) restrict generated documents. Known finding F26 (aliases to characters are lexical).',
     TECH)
+CLAIMED['C20'] = ('model_checking',
+    'TLC explores Paux.tla exhaustively (all save/restore/fault sequences up to a bound over two renderers, two labels, abstract '
+    'file states missing/unloadable/non-dictionary/dictionary with broken sections or entries): NeverFails, RestoreTotal, '
+    'AtWorstAbsent, PerRenderer, SaveHeals (round trip and healing as an action property).  One behaviour per distinct state is '
+    'replayed on the real Context.persist/restore with real files.  Byte-level fault enumeration binds the abstraction to the '
+    'pickle format: EVERY truncation prefix and EVERY single-bit flip of real .paux files, random multi-bit flips and foreign '
+    'files are classified by an independent unpickling and the recorded restore/save/restore traces are validated by TLC '
+    'against PauxTrace.tla.',
+    'DESIGN.md#c20',
+    'Trusted: TLC, Paux.tla, the classification of file bytes into abstract states by the harness. Worker processes run under a '
+    '1 GiB address-space limit so that a flipped length field yields the MemoryError the code catches rather than a multi-GB '
+    'allocation; hostile pickles are out of scope.',
+    TECH + '; exhaustive truncation/bit-flip fault enumeration')
